@@ -140,6 +140,22 @@ def fam_query(v, n):
             ops.append(op)
         if rng.random() < 0.1:
             ops.append({"op": "apply_query", "string": s, "q": q, "type": label, "fields": [list(p) for p in fields]})
+    from gen import re_is_free as _free
+    for _ in range(max(4, n // 60)):
+        label = rng.choice(v.labels)
+        ks = v.tdict[label]
+        free = [i for i, (k, r) in enumerate(ks) if _free(r)]
+        if not free:
+            continue
+        i = rng.choice(free)
+        vals = [v.value((k, r), concrete_only=True) for k, r in ks]
+        vals[i] = ""
+        s_empty = "/".join(vals)
+        k = ks[i][0]
+        for q in ("%s=~ophelia" % k, "%s=~" % k, "%s=~*" % k, "%s=~ophelia&%s=~zz" % (k, ks[-1][0]), "%s=ophelia" % k):
+            ops.append({"op": "sid", "s": s_empty + "?" + q})
+            ops.append({"op": "sid_call", "from": {"s": rng.choice([s_empty, label + ":" + s_empty])}, "m": "get_with_q", "q": q})
+        ops.append({"op": "update", "d": [[kk, vv] for (kk, _), vv in zip(ks, vals)], "q": "%s=~ophelia" % k})
     ops.append({"op": "sid_call", "from": {"s": "hamlet/a/char"}, "m": "get_with_kw", "kw": [["foo", None]]})
     ops.append({"op": "sid", "s": "hamlet/a/char?"})
     ops.append({"op": "sid", "s": "?project=hamlet"})
@@ -403,6 +419,9 @@ def fam_listfind(v, n):
             L = [rng.choice([" ", ""]) + s for s in L]
         if rng.random() < 0.5:      # ONE FindInList instance serves every search on this list (as a long-lived tool would)
             flags["reuse"] = "u%d" % len(ops)
+            if "ps" not in flags:     # ... on a list that is NOT in sorted order: the order of the answers is the list's
+                L = list(L)
+                rng.shuffle(L)
         for _ in range(12):
             base = rng.choice(leaves) if rng.random() < 0.8 else None
             if base is not None and rng.random() < 0.3:
